@@ -103,6 +103,12 @@ impl HashSet {
             .read_u32_le()
             .map_err(insufficient_data("coupon_count"))?;
         let coupon_count = coupon_count as usize;
+        if coupon_count >= (1usize << lg_arr) {
+            return Err(Error::deserial(format!(
+                "coupon count {coupon_count} does not fit a table of {} slots",
+                1usize << lg_arr
+            )));
+        }
 
         if compact {
             // Compact mode: only couponCount coupons are stored
